@@ -77,8 +77,19 @@ def gen_case(seed, i):
         dargs = ["--priority", rng.choice(["newest", "oldest", "most-nested", "bottom", "most-recently-modified"])]
     elif r_ < 0.3:
         dargs = ["-n", "2"]
+    # the length check of the dedupe commands is off after `group --transform` (automatically) or with
+    # --no-check-size: then only the modification time protects a changed file; empty files (-s 0) too
+    r_ = rng.random()
+    if r_ < 0.12 and "-H" not in gflags:
+        gflags = gflags + ["--transform", rng.choice(["cat", "tr a-m A-M", "head -c 20"])]
+    elif r_ < 0.22:
+        dargs = dargs + ["--no-check-size"]
+    lens = [1, 40, 300, 5000, 70000]
+    if rng.random() < 0.2:
+        gflags = gflags + ["--min", "0"]
+        lens = [0, 0, 1, 40]
     for g in range(ngroups):
-        n = rng.choice([1, 40, 300, 5000, 70000])
+        n = rng.choice(lens)
         for k in range(rng.randint(2, 4)):
             d = rng.choice(dirs)
             w.add_file("%s/g%dk%d" % (d, g, k), _c(g + 1, n))
